@@ -113,6 +113,13 @@ def run_case(case):
             f2.load_state_dict(fwd.state_dict())
             i2.load_state_dict(inv.state_dict())
             fwd, inv = f2, i2
+    if case['k'] % 3 == 0:
+        # earlier in the module's life somebody fed it float32 data (rejected or not, it must leave no trace)
+        r.label('after_other_precision_call')
+        dwtu.other_precision_call(fwd, [1, 1] + size, torch.float64)
+        dwtu.other_precision_call(inv, None, torch.float64, lambda dt: (
+            torch.ones([1, 1] + [max(2, n // 2 ** J) for n in size], dtype=dt),
+            [torch.ones([1, 1] + ([] if dim == 1 else [3]) + [max(2, n // 2 ** J) for n in size], dtype=dt)]))
     ntot = int(np.prod(size))
     full = ntot <= (640 if dim == 1 else 400)
     tol = 1e-9
